@@ -292,20 +292,25 @@ func mergeSnapshots(next, existing metadata.ClusterMetadata) metadata.ClusterMet
 	if len(existing.Topics) == 0 {
 		return next
 	}
-	seen := make(map[string]struct{}, len(next.Topics))
-	for _, topic := range next.Topics {
+	seen := make(map[string]int, len(next.Topics))
+	for i, topic := range next.Topics {
 		name := *topic.Topic
 		if name == "" {
 			continue
 		}
-		seen[name] = struct{}{}
+		seen[name] = i
 	}
 	for _, topic := range existing.Topics {
 		name := *topic.Topic
 		if name == "" || topic.ErrorCode != 0 {
 			continue
 		}
-		if _, ok := seen[name]; ok {
+		if i, ok := seen[name]; ok {
+			// Partitions are only ever added (CreatePartitions on a broker):
+			// never let the resource definition shrink a topic that has grown.
+			if len(topic.Partitions) > len(next.Topics[i].Partitions) {
+				next.Topics[i].Partitions = topic.Partitions
+			}
 			continue
 		}
 		next.Topics = append(next.Topics, topic)
